@@ -2,6 +2,7 @@ import Proofs.C09.Legacy
 import Proofs.C09.Bip341
 import Proofs.C09.Impl
 import Proofs.C09.Spec
+import Proofs.C09.Examples
 /-!
 # C09 — signature hashes equal the legacy, BIP143 and BIP341 definitions
 
@@ -175,6 +176,24 @@ theorem bip143_commits (H : Bytes → Bytes) (hH : ∀ x, (H x).length = 32) (sc
     exact (open_hash e8).imp
       (fun e => serTxOut_prefixInj.inj (getD_wf_out wf.vout nIn) (getD_wf_out wf'.vout nIn) e) id
 
+/-- T2 (BIP143), SINGLE with the committed output DROPPED on one side: if the signed input has its matching
+    output in one transaction and none in the other (`nIn ≥ tx'.vout.length`, where BIP143 writes 32 zero bytes),
+    equal preimages exhibit an explicit preimage of `0^32` under `H`: the serialization of the dropped output.
+    (With both in range `bip143_commits` applies; with neither, hashOutputs is zero on both sides and SINGLE
+    commits to no output at all -- BIP143's rule, the analogue of the legacy bug.) -/
+theorem bip143_single_dropped_output (H : Bytes → Bytes) (hH : ∀ x, (H x).length = 32) (sc sc' : Bytes) (tx tx' : Tx)
+    (nIn ht ht' : Nat) (amount amount' : Int)
+    (wf : tx.WF) (wf' : tx'.WF) (hin : nIn < tx.vin.length) (hin' : nIn < tx'.vin.length)
+    (hsc : Sized sc) (hsc' : Sized sc') (ha : I64 amount) (ha' : I64 amount')
+    (hht : ht < 4294967296) (hht' : ht' < 4294967296) (hs : isSingle ht = true)
+    (ho : nIn < tx.vout.length) (ho' : ¬ nIn < tx'.vout.length)
+    (h : bip143Preimage H sc tx nIn ht amount = bip143Preimage H sc' tx' nIn ht' amount') :
+    H (serTxOut (tx.vout.getD nIn blankOut)) = zero32 := by
+  obtain ⟨_, _, _, _, _, _, _, e8, _, e10⟩ := bip143Preimage_inj hH wf.version wf'.version wf.lockTime
+    wf'.lockTime (getD_wf_in wf.vin hin) (getD_wf_in wf'.vin hin') hsc hsc' ha ha' hht hht' h
+  subst e10
+  simpa [bip143HashOutputs, hs, ho, ho'] using e8
+
 /-- T2 (BIP341/342): equal `SigMsg` preimages (SHA256 parameter `S` with 32-byte output, hash types below 256)
     mean the same hash type, version, lock time, spend type (annex present / extension present) and the same
     BIP342 extension (tapleaf hash, key version, codeseparator position); without ANYONECANPAY the same input
@@ -247,17 +266,29 @@ theorem bip341_commits (S : Bytes → Bytes) (hS : ∀ x, (S x).length = 32) (tx
     simp only [tapAnnexHash] at e8
     exact (open_hash e8).imp (fun e => varBytes_prefixInj.inj sa sa' e) id
 
-/-- T2 (BIP341), digest level: equal tagged digests mean equal messages or an explicit collision of `S` on the
-    two tagged inputs. -/
+/-- T2 (BIP341), digest level, with the colliding pair named: equal tagged digests mean equal messages or the two
+    tagged inputs `S(tag) ‖ S(tag) ‖ message` are an explicit collision of `S`. -/
+theorem bip341_digest_commits_explicit (S : Bytes → Bytes) (tx tx' : Tx) (nIn nIn' : Nat) (spent spent' : List TxOut)
+    (ht ht' : Nat) (annex annex' : Option Bytes) (ext ext' : Option TapExt)
+    (h : bip341Digest S tx nIn spent ht annex ext = bip341Digest S tx' nIn' spent' ht' annex' ext') :
+    bip341Preimage S tx nIn spent ht annex ext = bip341Preimage S tx' nIn' spent' ht' annex' ext' ∨
+      Collides S
+        (S Gen.SigHash.TAG_SIGHASH ++ (S Gen.SigHash.TAG_SIGHASH ++ bip341Preimage S tx nIn spent ht annex ext))
+        (S Gen.SigHash.TAG_SIGHASH ++ (S Gen.SigHash.TAG_SIGHASH ++ bip341Preimage S tx' nIn' spent' ht' annex' ext')) := by
+  unfold bip341Digest taggedWith at h
+  rcases open_hash h with e | c
+  · exact Or.inl (List.append_cancel_left (List.append_cancel_left e))
+  · exact Or.inr c
+
+/-- T2 (BIP341), digest level, existential form (what C10 composes with): equal messages or SOME collision of `S`
+    -- the pair is the one `bip341_digest_commits_explicit` names. -/
 theorem bip341_digest_commits (S : Bytes → Bytes) (tx tx' : Tx) (nIn nIn' : Nat) (spent spent' : List TxOut)
     (ht ht' : Nat) (annex annex' : Option Bytes) (ext ext' : Option TapExt)
     (h : bip341Digest S tx nIn spent ht annex ext = bip341Digest S tx' nIn' spent' ht' annex' ext') :
     bip341Preimage S tx nIn spent ht annex ext = bip341Preimage S tx' nIn' spent' ht' annex' ext' ∨
-      ∃ a b, Collides S a b := by
-  unfold bip341Digest taggedWith at h
-  rcases open_hash h with e | c
-  · exact Or.inl (List.append_cancel_left (List.append_cancel_left e))
-  · exact Or.inr ⟨_, _, c⟩
+      ∃ a b, Collides S a b :=
+  (bip341_digest_commits_explicit S tx tx' nIn nIn' spent spent' ht ht' annex annex' ext ext' h).imp id
+    (fun c => ⟨_, _, c⟩)
 
 /-- T2 (BIP143), digest level. -/
 theorem bip143_digest_commits (H : Bytes → Bytes) (sc sc' : Bytes) (tx tx' : Tx) (nIn ht ht' : Nat)
@@ -356,7 +387,6 @@ example : (walk [0x01, 0xAB, 0xAB, 0x51, 0x02, 0xAB]) = ([[0x01, 0xAB], [0xAB], 
 example : baseType 0x83 = Gen.SigHash.SINGLE ∧ anyoneCanPay 0x83 = true ∧ isNone 0xFFFFFF02 = true := by decide
 example : tapSingle 0x83 = true ∧ tapAcp 0x83 = true ∧ tapAcp 3 = false := by decide
 -- a concrete well-formed transaction and its legacy preimage length
-def exTx : Tx := ⟨2, [⟨⟨List.replicate 32 7, 1⟩, [], 0xFFFFFFFE⟩], [⟨1000, [0x51]⟩], 0⟩
 example : (legacyPreimage [0xAB, 0x51] exTx 0 1).length = 4 + 1 + (36 + 2 + 4) + 1 + (8 + 2) + 4 + 4 := by decide
 -- the second separator of `ab 01ab ab 51`: the 0xAB inside the push is not counted
 example : scriptCodeFrom [0xAB, 0x01, 0xAB, 0xAB, 0x51] 2 = some [0x51] ∧
@@ -368,6 +398,26 @@ example : (Impl.legacy id [0xAB, 0x51] exTx 0 (-127)).toOption.isSome = true := 
 example : (Impl.segwitV0 id [0x51] exTx 0 0x83 1000 none).toOption.isSome = true := by decide
 example : (Impl.taproot id exTx 0 [⟨1000, [0x51]⟩] 0x83 1 [0x50] (tapExtBytes (some ⟨List.replicate 32 9, 0, 4294967295⟩))
     none).toOption.isSome = true := by decide
+-- the hypothesis bundles of the three `*_commits` theorems are inhabited: a well-formed transaction, spent
+-- output, extension, a 32-byte hash parameter -- and the theorems fire on them
+example : (1 : Nat) = 1 ∧ exTx.version = exTx.version :=
+  let r := legacy_commits [0xAB, 0x51] [0xAB, 0x51] exTx exTx 0 1 1 exTx_wf exTx_wf (by unfold Sized; decide)
+    (by unfold Sized; decide) (by decide) (by decide) (by decide) (by decide) (by decide) rfl
+  ⟨r.1, r.2.1⟩
+example : (0x83 : Nat) = 0x83 ∧ (1000 : Int) = 1000 :=
+  let r := bip143_commits exH exH_len [0x51] [0x51] exTx exTx 0 0x83 0x83 1000 1000 exTx_wf exTx_wf (by decide)
+    (by decide) (by unfold Sized; decide) (by unfold Sized; decide) (by decide) (by decide) (by decide) (by decide) rfl
+  ⟨r.1, r.2.2.2.2.2.2.1⟩
+example : (0x83 : Nat) = 0x83 ∧ some exExt = some exExt :=
+  let ws : ∀ o ∈ [(⟨1000, [0x51]⟩ : TxOut)], o.WF := by
+    intro o ho
+    simp only [List.mem_singleton] at ho
+    subst ho
+    exact ⟨by decide, by unfold Sized; decide⟩
+  let r := bip341_commits exH exH_len exTx exTx 0 0 [⟨1000, [0x51]⟩] [⟨1000, [0x51]⟩] 0x83 0x83 (some [0x50])
+    (some [0x50]) (some exExt) (some exExt) exTx_wf exTx_wf ws ws (by decide) (by decide) (by decide) (by decide)
+    (by decide) (by decide) (fun e he => by cases he; exact exExt_wf) (fun e he => by cases he; exact exExt_wf) rfl
+  ⟨r.1, r.2.2.2.1⟩
 example : legacySingleBug exTx 0 3 = false ∧ legacySingleBug { exTx with vout := [] } 0 3 = true := by decide
 
 end Props.C09
